@@ -122,9 +122,17 @@ func analyseRewrite(c *engine.Ctx, f *ssa.Function) []frameItem {
 				if fv.Pkg() != nil && fv.Pkg().Path() == "net/url" {
 					it.ok = true // target / pool key (R4 decides what it must cover)
 				} else {
-					// req.Host: only from the rewrite setting, under a non-empty test
+					// req.Host: only from the rewrite setting, under a non-empty test — or the inbound request's own Host
+					// put back (Out.Host = In.Host, which changes nothing)
 					it.ok = cfgString(x.Val, "RewriteHost", "HostHeaderRewrite")
 					it.why = "Host is overwritten with something other than the configured rewrite value"
+					if hf, base := engine.LoadedField(x.Val); !it.ok && hf != nil && hf.Name() == "Host" && base != nil {
+						if inF, b2 := engine.LoadedField(base); inF != nil && inF.Name() == "In" && b2 == ssa.Value(pr) {
+							it.ok = true
+							items = append(items, it)
+							return
+						}
+					}
 					if it.ok {
 						q := &engine.PathQuery{Fn: f, Sink: engine.Is(in)}
 						states, err := q.Run()
@@ -153,6 +161,33 @@ func analyseRewrite(c *engine.Ctx, f *ssa.Function) []frameItem {
 			switch {
 			case o.Name() == "SetXForwarded" && len(args) > 0 && args[0] == ssa.Value(pr):
 				items = append(items, frameItem{what: "SetXForwarded()", ok: true, pos: in.Pos()})
+			case o.Name() == "SetURL" && len(args) > 0 && args[0] == ssa.Value(pr):
+				// httputil: "SetURL rewrites the outbound Host header to match the target's host" (it clears Out.Host);
+				// the user's Host survives only when the hook puts it back right afterwards (Out.Host = In.Host)
+				restored := false
+				blk := in.Block()
+				after := false
+				for _, y := range blk.Instrs {
+					if y == in {
+						after = true
+						continue
+					}
+					st, ok := y.(*ssa.Store)
+					if !after || !ok {
+						continue
+					}
+					if fv, _ := engine.LoadedField(st.Addr); fv == nil || fv.Name() != "Host" || fv.Pkg() == nil || fv.Pkg().Path() != "net/http" {
+						continue
+					}
+					vs := engine.Provenance(st.Val, engine.ProvOpts{NoArgs: true})
+					for fv := range vs.Fields {
+						if fv.Name() == "In" {
+							restored = true
+						}
+					}
+				}
+				items = append(items, frameItem{what: "SetURL()", ok: restored, pos: in.Pos(),
+					why: "ProxyRequest.SetURL clears the outbound Host (the backend then receives the target address as Host) and the hook does not restore Out.Host from In.Host right after it"})
 			case o.Pkg() != nil && o.Pkg().Path() == "net/http" && (o.Name() == "Set" || o.Name() == "Add" || o.Name() == "Del") && len(args) > 0:
 				// Header mutation on the outbound request?
 				src := engine.Provenance(args[0], engine.ProvOpts{NoArgs: true})
@@ -585,6 +620,9 @@ func runC02(c *engine.Ctx) {
 
 	// ---- R11 the CONNECT handler can hijack what it is given (shared with C16.R21) ----
 	c16ImpossibleAssert(c, "R11", "pkg/util/vhost", "pkg/plugin/client", "pkg/util/http")
+
+	// ---- R12 one request waiting for its backend does not hold a lock the other requests need (shared with C16.R23) ----
+	checkNoWaitUnderLock(c, engine.AnalyzeLocks(c.P), "R12")
 }
 
 func keysOf(m map[string]bool) []string {
